@@ -401,6 +401,15 @@ def check_truth_tables(ctx):
         ("MatchesListwise", "MatchesListwise([m1, m2]).match([a, b])", lambda tb: tb[("m1", A)] and tb[("m2", B)], [("m1", A), ("m2", B)]),
         ("MatchesListwise", "MatchesListwise([m1, m2]).match([a])", lambda tb: False, [("m1", A)]),
         ("MatchesListwise", "MatchesListwise([m1]).match([a, b])", lambda tb: False, [("m1", A)]),
+        # (options that only choose what is reported must not change the verdict)
+        ("MatchesListwise", "MatchesListwise([m1, m2], first_only=True).match([a, b])", lambda tb: tb[("m1", A)] and tb[("m2", B)], [("m1", A), ("m2", B)]),
+        ("MatchesListwise", "MatchesListwise([m1, m2], first_only=True).match([a])", lambda tb: False, [("m1", A)]),
+        ("MatchesListwise", "MatchesListwise([m1], first_only=True).match([a, b])", lambda tb: False, [("m1", A)]),
+        ("MatchesListwise", "MatchesListwise([], first_only=True).match([a])", lambda tb: False, []),
+        ("MatchesListwise", "MatchesListwise([]).match([])", lambda tb: True, []),
+        ("AfterPreprocessing", "AfterPreprocessing(fn, m1, annotate=False).match(a)", t("m1", B), [("m1", B)]),
+        ("MatchesAll", "MatchesAll().match(a)", lambda tb: True, []),
+        ("MatchesAny", "MatchesAny().match(a)", lambda tb: False, []),
         ("MatchesStructure", "MatchesStructure(x=m1, y=m2).match(obj)", lambda tb: tb[("m1", A)] and tb[("m2", B)], [("m1", A), ("m2", B)]),
         ("MatchesStructure", "MatchesStructure(x=m1, y=m2).match(obj2)", lambda tb: tb[("m1", NONE)] and tb[("m2", B)], [("m1", NONE), ("m2", B)]),   # obj2.x is None
         ("MatchesAllDict", "MatchesAllDict({'one': m1, 'two': m2}).match(a)", lambda tb: tb[("m1", A)] and tb[("m2", A)], [("m1", A), ("m2", A)]),
